@@ -64,19 +64,19 @@ mod verif_c03_load {
     }
 
     // one extension: all 4 shapes x the three FileContent variants
-    // @h name=c03_s1_a tier=thorough timeout=5400 mem=32 weight=2 flags=-Z+restrict-vtable
+    // @h name=c03_s1_a tier=parked timeout=5400 mem=32 weight=2 flags=-Z+restrict-vtable
     shape_harness!(c03_s1_a, X1, 1, [0, 3, 3], 0);
-    // @h name=c03_s1_u tier=thorough timeout=5400 mem=32 weight=2 flags=-Z+restrict-vtable
+    // @h name=c03_s1_u tier=parked timeout=5400 mem=32 weight=2 flags=-Z+restrict-vtable
     shape_harness!(c03_s1_u, X1, 1, [1, 3, 3], 0);
-    // @h name=c03_s1_x_slice tier=thorough timeout=5400 mem=32 weight=2 flags=-Z+restrict-vtable
+    // @h name=c03_s1_x_slice tier=parked timeout=5400 mem=32 weight=2 flags=-Z+restrict-vtable
     shape_harness!(c03_s1_x_slice, X1, 1, [2, 3, 3], 0);
-    // @h name=c03_s1_d_slice tier=thorough timeout=5400 mem=32 weight=2 flags=-Z+restrict-vtable
+    // @h name=c03_s1_d_slice tier=parked timeout=5400 mem=32 weight=2 flags=-Z+restrict-vtable
     shape_harness!(c03_s1_d_slice, X1, 1, [3, 0, 0], 0);
-    // @h name=c03_s1_d_buffer tier=thorough timeout=5400 mem=32 weight=2 flags=-Z+restrict-vtable
+    // @h name=c03_s1_d_buffer tier=parked timeout=5400 mem=32 weight=2 flags=-Z+restrict-vtable
     shape_harness!(c03_s1_d_buffer, X1, 1, [3, 0, 0], 1);
-    // @h name=c03_s1_d_owned tier=thorough timeout=5400 mem=32 weight=2 flags=-Z+restrict-vtable
+    // @h name=c03_s1_d_owned tier=parked timeout=5400 mem=32 weight=2 flags=-Z+restrict-vtable
     shape_harness!(c03_s1_d_owned, X1, 1, [3, 0, 0], 2);
-    // @h name=c03_s1_x_owned tier=thorough timeout=5400 mem=32 weight=2 flags=-Z+restrict-vtable
+    // @h name=c03_s1_x_owned tier=parked timeout=5400 mem=32 weight=2 flags=-Z+restrict-vtable
     shape_harness!(c03_s1_x_owned, X1, 1, [2, 0, 0], 2);
 
     // @h name=c03_load_ext0 tier=quick timeout=300 flags=-Z+restrict-vtable
@@ -91,7 +91,7 @@ mod verif_c03_load {
         std::mem::forget(r);
     }
 
-    // @h name=c03_load_default tier=thorough timeout=5400 mem=32 weight=2 flags=-Z+restrict-vtable
+    // @h name=c03_load_default tier=parked timeout=5400 mem=32 weight=2 flags=-Z+restrict-vtable
     #[kani::proof]
     #[kani::unwind(5)]
     fn c03_load_default() {
